@@ -5,6 +5,7 @@ CONSTANTS
   ExportScripts = FALSE
   EnableFaults = TRUE
   EnableRestart = FALSE
+  EnableDebugWrites = FALSE
   SrcVals = {0, 255}
   Dts = {2, 5}
 VIEW View
